@@ -21,6 +21,8 @@ def main():
     sany_all()
     C.build_harness()
     C.build_server()
+    import suitetrace
+    suitetrace.run_suite("setup")          # builds the repository's tests with the trace hook on (warm target directory)
     import registry
     for fn in getattr(registry, "WARM", []):
         fn()
